@@ -41,7 +41,12 @@ run-time primitives are in `Base/PyList.lean`, which the `imports` of the genera
 * `a ** b` (natural exponent), `max(a, b)` / `min(a, b)` (integers: `max` / `min`; floats: `X.pymax` / `X.pymin`),
   list literals `[a, b]`, `[e] * n` (`List.replicate`), a list comprehension with one generator and a pure element
   (`List.map`), a conditional expression whose branches are `Nat` and `Int` (coerced to `Int`), f-strings whose
-  parts are strings, `+` on strings.
+  parts are strings, `+` on strings;
+* a dictionary that is only built and iterated is a list of pairs in insertion order: a dictionary comprehension
+  `{k: v for a, b in it if c}` is `List.map` after `List.filter`, `for a, b in d.items()` iterates over the list;
+* a generator-based context manager `<enter statements>; try: yield; finally: <exit statements>` is translated as
+  two functions (profile `part`: `"enter"` = the statements up to the `yield`, `"exit"` = the `finally` block, run
+  on a record of the same locals: the state at the `yield` with whatever the `with` body did to the object).
 
 Anything outside the subset raises `Untranslatable` - the tie is then reported as broken (never silently skipped).
 """
@@ -234,6 +239,8 @@ class Fn:
 
     # ---------------------------------------------------------------- expressions
     def var(self, name):
+        if name in getattr(self, "bound", {}):
+            return E(*self.bound[name])
         name = self.rebound.get(name, name)
         if name in self.consts:
             return self.lit(self.consts[name])
@@ -514,6 +521,32 @@ class Fn:
             if not elt.pure:
                 raise Untranslatable(f"comprehension element that can raise: {ast.unparse(node.elt)}")
             return self.bind1(it, lambda x: f"(List.map (fun ({v} : {elem_type(it.ty)}) => {elt.term}) {x})", f"List {paren(elt.ty)}")
+        if isinstance(node, ast.DictComp):
+            g = node.generators[0]
+            tg = g.target
+            if len(node.generators) != 1 or g.is_async or not (isinstance(tg, ast.Tuple) and len(tg.elts) == 2 and all(isinstance(e, ast.Name) for e in tg.elts)):
+                raise Untranslatable(f"comprehension shape: {ast.unparse(node)}")
+            it = self.iterator(g.iter)
+            if not it.ty.startswith("List ") or not it.pure:
+                raise Untranslatable(f"comprehension iterable: {ast.unparse(g.iter)}")
+            ety = elem_type(it.ty)
+            m = re.fullmatch(r"(.+) × (.+)", ety)
+            if not m:
+                raise Untranslatable(f"comprehension over {it.ty}: {ast.unparse(node)}")
+            # (the variables of a comprehension are local to it; they may shadow locals of the function)
+            saved = dict(getattr(self, "bound", {}))
+            self.bound = dict(saved, **{tg.elts[0].id: ("p.1", m.group(1).strip("()")), tg.elts[1].id: ("p.2", m.group(2).strip("()"))})
+            try:
+                conds = [self.truthy(self.ce(c)) for c in g.ifs]
+                k, v = self.ce(node.key), self.ce(node.value)
+            finally:
+                self.bound = saved
+            if not all(c.pure for c in conds) or not (k.pure and v.pure):
+                raise Untranslatable(f"comprehension part that can raise: {ast.unparse(node)}")
+            src = it.term
+            for c in conds:
+                src = f"(List.filter (fun (p : {ety}) => {c.term}) {src})"
+            return E(f"(List.map (fun (p : {ety}) => ({k.term}, {v.term})) {src})", f"List ({k.ty if '×' not in k.ty and '→' not in k.ty else paren(k.ty)} × {v.ty if '×' not in v.ty and '→' not in v.ty else paren(v.ty)})")
         if isinstance(node, ast.JoinedStr):
             parts = []
             for v in node.values:
@@ -543,6 +576,11 @@ class Fn:
                 e = self.ce(node.args[0])
                 if e.ty == "Nat":
                     return self.bind1(e, lambda x: f"(List.range {x})", "List Nat")
+        if (isinstance(node, ast.Call) and isinstance(node.func, ast.Attribute) and node.func.attr == "items" and not node.args
+                and self.try_external(node) is None):
+            d = self.ce(node.func.value)
+            if re.fullmatch(r"List \(.+ × .+\)", d.ty):
+                return d          # a dictionary kept as the list of its items
         e = self.ce(node)
         if e.ty.startswith("Stack "):
             # iterating over a list kept as a stack visits it from the bottom
@@ -755,6 +793,12 @@ class Fn:
                 # an effectful external: template is a state transformer  S -> M S
                 return seq(lambda kn: f"{ext.m()} >>= fun σ => {kn} σ") if not ext.pure else f"let σ := {ext.term}\n{after()}"
             raise Untranslatable(f"call statement {ast.unparse(call)[:60]}")
+        if isinstance(s, ast.Try) and self.p.get("part") and is_yield_try(s):
+            if rest or loopk is not None:
+                raise Untranslatable("statements after the try/yield/finally of a context manager")
+            if self.p["part"] == "enter":
+                return self.app(k)
+            raise Untranslatable("part 'exit' is translated from the finally block")
         if isinstance(s, ast.Try):
             if s.orelse or s.finalbody or len(s.handlers) != 1 or len(s.body) != 1:
                 raise Untranslatable("try statement shape")
@@ -920,7 +964,12 @@ class Fn:
     # ---------------------------------------------------------------- whole function
     def translate(self):
         Fn._n = 0
-        body = self.cs(self.fdef.body, "Except.ok")
+        stmts = self.fdef.body
+        if self.p.get("part") == "exit":
+            if not (stmts and isinstance(stmts[-1], ast.Try) and is_yield_try(stmts[-1])):
+                raise Untranslatable("part 'exit': the function does not end in try: yield / finally:")
+            stmts = stmts[-1].finalbody
+        body = self.cs(stmts, "Except.ok")
         for loc, par in self.p.get("init", {}).items():
             body = f"let σ := {{ σ with {loc} := {par} }}\n{body}"
         fields = "\n".join(f"  {n} : {t.replace('Stack ', 'List ')} := default" for n, t in self.locals.items())
@@ -960,6 +1009,12 @@ class Fn:
         return text + main
 
 
+def is_yield_try(s):
+    """`try: yield` with a `finally` block and nothing else"""
+    return (len(s.body) == 1 and isinstance(s.body[0], ast.Expr) and isinstance(s.body[0].value, ast.Yield)
+            and s.body[0].value.value is None and not s.handlers and not s.orelse and bool(s.finalbody))
+
+
 def diverts(stmts):
     """every path through the statement list ends in raise / return / continue / break"""
     if not stmts:
@@ -991,7 +1046,7 @@ def generate(profiles, files):
                  *[f"import {m}" for m in meta["imports"]], "",
                  "set_option linter.unusedVariables false", "", "namespace Gen.Code", ""]
         for prof in [p for p in profiles if p["file"] == fname]:
-            key = f"code:{prof['module']}.{prof['object']}"
+            key = f"code:{prof['module']}.{prof['object']}" + (f"#{prof['part']}" if prof.get("part") else "")
             try:
                 mod = importlib.import_module(prof["module"])
                 obj = mod
